@@ -155,6 +155,9 @@ func (e *c05Env) oneTree(tree *c05Node, rng *vh.Rand, level int) error {
 			if withModel {
 				e.routeTarShuffle(tree, srcDir, src, rng)
 			}
+			if level >= 2 {
+				e.routeTarBreadthFirst(tree, srcDir, src)
+			}
 			cat := e.scratch("fmt") + ".catar"
 			if err := os.WriteFile(cat, cliBytes, 0600); err == nil {
 				e.routeGnuTar(tree, srcDir, src, cat, level >= 2)
@@ -182,6 +185,10 @@ func runC05(a vh.Args, o *vh.Oracle, r *vh.Result) error {
 		if err := readJSON(a.Replay, &c); err != nil {
 			return err
 		}
+		if c.Tree == nil && strings.HasPrefix(c.Route, "tar-members-") {
+			e.routeTarUngroupedFamily() // the fixed family of tar streams
+			return nil
+		}
 		if c.Tree == nil {
 			return fmt.Errorf("replay file has no tree")
 		}
@@ -195,6 +202,7 @@ func runC05(a vh.Args, o *vh.Oracle, r *vh.Result) error {
 	}
 	rng := vh.NewRand(a.Seed)
 	e.routeRootKinds(a.Seed ^ 0x7007)
+	e.routeTarUngroupedFamily()
 	for i := 0; i < 3; i++ {
 		e.routeXattrOrder(a.Seed ^ uint64(0xA77+i))
 	}
